@@ -15,6 +15,9 @@ use std::sync::Mutex;
 use http::{Request, Response};
 
 use crate::net::Error;
+/// The scratch space `to_view_bytes` hands to the serializer, so that its requests and
+/// releases can be driven directly (through rkyv's `ScratchSpace` trait).
+pub use crate::rkyv_tooling::VerifLazyScratch as LazyScratch;
 use crate::server::ServerState;
 
 struct LocalServer {
